@@ -105,6 +105,9 @@ def rx_items(items, what: str) -> str:
             lo, hi, p = av
             if hi != sre_c.MAXREPEAT or lo not in (0, 1):
                 raise Broken(f"{W}: {what}: bounded repeat {{{lo},{hi}}} is not supported")
+            if p.getwidth()[0] == 0:
+                raise Broken(f"{W}: {what}: the body of a repeat can match the empty string (sre's empty-iteration "
+                             "rules are not modelled)")
             body = rx_items(p, what)
             g = "true" if name == "MAX_REPEAT" else "false"
             ts.append(f"(XStar {g} {body})" if lo == 0 else f"(XPlus {g} {body})")
